@@ -24,8 +24,9 @@ import (
 )
 
 type BedProgram struct {
-	P   *Program `json:"program"`
-	Lex []byte   `json:"lex"`
+	P    *Program `json:"program"`
+	Lex  []byte   `json:"lex"`
+	Slim bool     `json:"slim,omitempty"` // compiled with -gen go:slim
 }
 
 type bedPkg struct {
@@ -188,7 +189,11 @@ func BuildBed(dir string, progs []BedProgram) ([]string, error) {
 			return nil, err
 		}
 		out := filepath.Join(mod, fmt.Sprintf("p%d", k))
-		cerr, pn := compileInProcess(root, fmt.Sprintf("go:package_prefix=genmod/p%d/", k), out, ".", true)
+		genOpt := fmt.Sprintf("go:package_prefix=genmod/p%d/", k)
+		if bp.Slim {
+			genOpt = fmt.Sprintf("go:slim,package_prefix=genmod/p%d/", k)
+		}
+		cerr, pn := compileInProcess(root, genOpt, out, ".", true)
 		if cerr != nil || pn != "" {
 			return nil, fmt.Errorf("program %d does not compile to Go: %v %s\n%s", k, cerr, firstLines(pn, 6), allTexts(texts))
 		}
